@@ -265,3 +265,24 @@ PROPS['C15'] = dict(
     level_text='generated durations, boundary data and query times judged in exact rational arithmetic with stated rounding bounds; sampling, not proof',
     level_note='trusts GMP; errors below the stated bounds are invisible',
 )
+
+PROPS['C14'] = dict(
+    level='exploration',
+    rule='choice tape -> trapezoid or bell request: limits log-uniform in [0.05, 200], distance log-uniform in [1e-3, 1e4] in either direction, start position in [-1000, 1000] or 0, boundary velocities inside the limit '
+         '(0, exactly on the limit, 30% opposing the travel direction, 10% outside the limit to exercise clamping); trapezoid: sign(ac) = sign(p1-p0), sign(de) = -sign(p1-p0) by construction; bell: the request is made feasible by the '
+         'standard double-S inequality (evaluated in long double; infeasible draws are repaired by doubling the distance). Only a positive return value activates the oracle (others are counted under excluded_by_construction): '
+         'non-negative phase durations adding up to T, pos(0)=p0, vel(0)=clamped v0, pos(T)=p1, vel(T)=recorded v1 (1e-9*scale), hold before 0 / after T (incl. acc=jer=0 for the bell profile), continuity of pos/vel(/acc) across every '
+         'phase boundary (1e-7*scale between nextafter(t_b,-inf) and t_b), |vel|<=vm, |acc|<=am, |jer|<=jm (1e-9 relative) on a 200-point grid plus every boundary +-1ulp plus segment midpoints, and vel = d pos/dt, acc = d vel/dt, '
+         'jer = d acc/dt by central differences inside every phase longer than T/1000. non-trivial = any branch other than the plain full profile (no cruise, empty acceleration or deceleration phase, reduced acceleration) or '
+         'reversed travel; distinct = hash of the request',
+    assumptions=COMMON_ASSUME + ['scale s = max(|p0|,|p1|,|p1-p0|, vm*T, 1); velocity/acceleration/jerk scales are the requested limits',
+                                 'a request that the generator rejects (return value <= 0) is outside the statement and is not judged',
+                                 'the trapezoid final velocity is drawn in the direction of travel (a trapezoid cannot end moving backwards)'],
+    units=lambda tier, seed: [Unit('traj', 'exec/C14.cc', ['a.c', 'math.c', 'trajtrap.c', 'trajbell.c'], tape_len=64)],
+    plan={'quick': dict(rc_procs=10, rc_cases=15000, fuzz_procs=6, fuzz_secs=25),
+          'thorough': dict(rc_procs=8, rc_cases=300000, fuzz_procs=8, fuzz_secs=240)},
+    tolerances={'boundary_state': '1e-9*scale', 'continuity': '1e-7*scale', 'limits': '1e-9 relative', 'derivative_link': '1e-5*scale + 64u*scale/h (+ jm h^2 for cubic segments)'},
+    technique='property-based testing with validity predicates over generated feasible requests (boundary states, limits, continuity at all phase boundaries, derivative consistency); rapidcheck tapes + libFuzzer',
+    level_text='generated requests covering all planning branches, judged by predicates with stated tolerances; sampling, not proof',
+    level_note='trusts the feasibility inequality and tolerance constants in exec/C14.cc; limits in [0.05, 200], distances in [1e-3, 1e4]',
+)
